@@ -165,6 +165,20 @@ package encoding
 //@   ensures[delta_to_previous_appended] old(p.hasFirst) ==> (len(p.deltas) == old(len(p.deltas)) + 1 && p.deltas[old(len(p.deltas))] == old(p.previous) - v && p.previous == v && p.first == old(p.first) && p.hasFirst && forall(i, 0, old(len(p.deltas)), p.deltas[i] == old(p.deltas[i])))
 //@   ensures[min_delta_tracks_minimum] old(p.hasFirst) ==> (p.minDelta <= old(p.minDelta) && p.minDelta <= old(p.previous) - v && (p.minDelta == old(p.minDelta) || p.minDelta == old(p.previous) - v))
 //@ end
+//@ # decoder: the first value is stored as it is, every later one is the previous value minus (stored bits + min delta);
+//@ # together with delta_roundtrip / delta_width_holds_every_delta (what Add and the width computation guarantee) this is
+//@ # the per-value round trip of the codec
+//@ predicate ddOK(d *DeltaBitPackingDecoder) bool = d.br != nil && bit.rSane(d.br) && d.br.count < 8 && d.width >= 0 && d.width <= 32
+//@ func DeltaBitPackingDecoder.Next
+//@   prop C14
+//@   opaque tok bitsval
+//@   uses bitsval_def bitsval_fits
+//@   requires ddOK(d)
+//@   modifies d.pos, d.previous, d.br.b, d.br.count, d.br.err, d.br.buf.index
+//@   ensures[the_first_value_is_stored_as_it_is] old(d.pos) == d.count ==> (result == old(d.previous) && d.previous == old(d.previous) && d.pos == old(d.pos) - 1 && bit.rpos(d.br) == old(bit.rpos(d.br)))
+//@   ensures[a_later_value_is_the_previous_one_minus_the_stored_delta] (old(d.pos) != d.count && old(d.br.err) == nil && old(bit.rpos(d.br)) + d.width <= d.br.buf.length * 8) ==> (result == old(d.previous) - (int32(bit.bitsval(contents(d.br.buf.buf), old(bit.rpos(d.br)), d.width)) + d.minDelta) && d.previous == result && d.pos == old(d.pos) - 1 && bit.rpos(d.br) == old(bit.rpos(d.br)) + d.width)
+//@   ensures[state] d.br == old(d.br) && d.count == old(d.count) && d.width == old(d.width) && d.minDelta == old(d.minDelta)
+//@ end
 //@ func DeltaBitPackingDecoder.HasNext
 //@   prop C14
 //@   ensures result == (d.pos > 0)
